@@ -27,6 +27,10 @@ type Env struct {
 	fr      *Frame
 	results []Val
 	depth   int
+	lheaps  map[string]string // heap view at the enclosing loop head (step assertions)
+	lepoch  int
+	lnow    string
+	llocals map[string]Val
 }
 
 func (e *Env) child() *Env {
@@ -322,6 +326,22 @@ func (x *Exec) eval(sx *SX, env *Env) Val {
 	switch head {
 	case "old":
 		return x.eval(args[0], env.inOld())
+	case "athead":
+		if env.llocals == nil {
+			x.specFail("athead outside a loop step assertion")
+		}
+		v, ok := env.llocals[args[0].Atom]
+		if !ok {
+			x.specFail("no local %s at the loop head", args[0].Atom)
+		}
+		return v
+	case "atloop":
+		if env.lheaps == nil {
+			x.specFail("atloop outside a loop step assertion")
+		}
+		n := *env
+		n.heaps, n.epoch, n.now = env.lheaps, env.lepoch, env.lnow
+		return x.eval(args[0], &n)
 	case "forall", "exists":
 		ne := env.child()
 		var binds []string
@@ -664,7 +684,7 @@ func (x *Exec) eval(sx *SX, env *Env) Val {
 		if env.depth > 40 {
 			x.specFail("macro recursion too deep in %s", head)
 		}
-		ne := &Env{vars: map[string]Val{}, st: env.st, heaps: env.heaps, epoch: env.epoch, now: env.now, oheaps: env.oheaps, oepoch: env.oepoch, onow: env.onow, pkg: m.Pkg, fr: nil, results: nil, depth: env.depth + 1}
+		ne := &Env{vars: map[string]Val{}, st: env.st, heaps: env.heaps, epoch: env.epoch, now: env.now, oheaps: env.oheaps, oepoch: env.oepoch, onow: env.onow, pkg: m.Pkg, fr: nil, results: nil, depth: env.depth + 1, lheaps: env.lheaps, lepoch: env.lepoch, lnow: env.lnow, llocals: env.llocals}
 		if m.Pkg == "" {
 			ne.pkg = env.pkg
 			ne.at = env.at
@@ -709,6 +729,22 @@ func (x *Exec) eval(sx *SX, env *Env) Val {
 			return Val{S: "true", T: types.Typ[types.Bool]}
 		}
 		return Val{S: "(" + strings.Join(parts, " ") + ")", T: types.Typ[types.Bool]}
+	}
+	if head == "=>" && len(args) == 2 {
+		a := ev(0).S
+		c := func() (out string) {
+			defer func() {
+				if r := recover(); r != nil {
+					if _, ok := r.(specError); ok {
+						out = "false" // an unevaluable consequent cannot be established on this path
+						return
+					}
+					panic(r)
+				}
+			}()
+			return ev(1).S
+		}()
+		return Val{S: "(=> " + a + " " + c + ")", T: types.Typ[types.Bool]}
 	}
 	// SMT passthrough
 	parts := []string{sx.List[0].String()}
